@@ -71,6 +71,8 @@ var c01JSONConfigs = []string{
 	`{"BaseDir":"./","ShowWarnFlag":1,"ProjectFiles":["f0.lua","d1/f1.lua","nosuch.lua"],"IgnoreFileNameVarFlag":1,"ProtocolVars":["c2s","s2s"],"ProtocolPreIngoreFlag":1}`,
 	`{"BaseDir":"./d1/","ShowWarnFlag":1,"OtherDir":"../d2","IgnoreErrorTypes":[2,4],"OpenErrorTypes":[26,27,28]}`,
 	`{"BaseDir":"./","ShowWarnFlag":1,"OpenErrorTypes":[26,27,28,29]}`,
+	`{"BaseDir":"./","ShowWarnFlag":1,"OpenErrorTypes":[22,23,24,25,26,27,28,29]}`,
+	`{"BaseDir":"./","ShowWarnFlag":1,"OpenErrorTypes":[24,25]}`,
 	`{"BaseDir":"./","ShowWarnFlag":1,"OpenErrorTypes":[22,23,24,25,26,27,28,29],"ProjectFiles":["f0.lua"]}`,
 	`{"BaseDir":"./","ShowWarnFlag":0}`,
 	`{"ShowWarnFlag":1,"ReferFrameFiles":[{"Name":"import","Type":0,"SuffixFlag":1},{"Name":"include","Type":1,"SuffixFlag":0}],"PathSeparator":"/"}`,
@@ -219,6 +221,24 @@ func genC01(seed int64, tier string) *Scenario {
 	if r.Intn(8) == 0 {
 		names = append(names, "main.lua")
 		sc.Files = append(sc.Files, File{Path: "main.lua", Data: Bytes(g.Program(4))})
+	}
+	if r.Intn(4) == 0 {
+		// an annotated API in one file (globals and a returned module table) used from several other
+		// files: the cross-file passes then consult — and lazily fill — shared per-function
+		// information (parameter types, defaults, return types) from several pool workers
+		names = append(names, "annlib.lua")
+		sc.Files = append(sc.Files, File{Path: "annlib.lua", Data: Bytes("---@class Opt\n---@field n number\n\n---@param a number\n---@param b string\n---@param c? Opt\n---@return number\nfunction api_one(a, b, c)\n  return a\nend\n\nlocal M = {}\n---@param x number\n---@param y number\n---@return string, number\nfunction M.f(x, y)\n  return \"s\", x\nend\n---@param self table\n---@param v string\nfunction M:g(v)\n  return v\nend\nreturn M\n")})
+		for k := 0; k < 2+r.Intn(4); k++ {
+			n := fmt.Sprintf("caller%d.lua", k)
+			names = append(names, n)
+			body := "local m = require(\"annlib\")\n" +
+				[]string{"api_one(1, \"x\")\n", "api_one(\"wrong\", 2, {n = 1})\n", "api_one(1)\n", "api_one(1, \"x\", {}, 4)\n"}[r.Intn(4)] +
+				[]string{"local s, n = m.f(1, 2)\nprint(s, n)\n", "m.f(1, \"x\")\n", "m.f()\n", "print(m.f(1, 2, 3))\n"}[r.Intn(4)] +
+				[]string{"m:g(\"v\")\n", "m:g(1)\n", "m.g(m)\n", ""}[r.Intn(4)] +
+				"local r = api_one(2, \"y\")\nprint(r + 1, r .. \"z\")\n"
+			sc.Files = append(sc.Files, File{Path: n, Data: Bytes(body)})
+		}
+		sc.Knobs["annlib"] = true
 	}
 	// configuration file: absent / valid / structured random / hostile / garbage
 	switch r.Intn(12) {
@@ -514,6 +534,31 @@ func validUTF8(s string) bool {
 	return true
 }
 
+// deadlockSignature: the set of sites the waiters are blocked at (how many goroutines wait at
+// each depends on the pool width of the schedule, not on the defect).
+func deadlockSignature(detail string) string {
+	line := detail
+	if i := strings.Index(line, "\n"); i >= 0 {
+		line = line[:i]
+	}
+	line = gidRe.ReplaceAllString(line, "")
+	i := strings.Index(line, ": ")
+	if i < 0 {
+		return clip(line, 200)
+	}
+	seen := map[string]bool{}
+	var sites []string
+	for _, s := range strings.Split(line[i+2:], ",") {
+		s = strings.TrimSpace(s)
+		if s != "" && !seen[s] {
+			seen[s] = true
+			sites = append(sites, s)
+		}
+	}
+	sort.Strings(sites)
+	return clip(line[:i+2]+strings.Join(sites, ","), 300)
+}
+
 func checkC01(t *testing.T, sc *Scenario) *Verdict {
 	v := &Verdict{OK: true}
 	newRaceReports() // race-detector build only: discard anything left over
@@ -557,7 +602,7 @@ func checkC01(t *testing.T, sc *Scenario) *Verdict {
 		}
 		return v.violation("swallowed-panic", sig, res.Detail, replayForm())
 	case OutDeadlock:
-		return v.violation("deadlock", gidRe.ReplaceAllString(firstLine(res.Detail), ""), res.Detail, replayForm())
+		return v.violation("deadlock", deadlockSignature(res.Detail), res.Detail, replayForm())
 	case OutStuck:
 		d := res.Detail
 		if i := strings.Index(d, " unanswered"); i > 0 {
